@@ -27,19 +27,24 @@ from .common import log
 # expectation texts); they only matter for MODEL-DRIFT notes -- R does not mention them.
 EMIT = {"quick": "MC_DeltaBuffers_emit_quick.cfg", "thorough": "MC_DeltaBuffers_emit_thorough.cfg"}
 EMIT_PINNED = {"quick": "MC_DeltaBuffers_emit_pinned_quick.cfg", "thorough": "MC_DeltaBuffers_emit_pinned_thorough.cfg"}
+# derivations with TWO junk tokens / truncations / invalid lexemes (a second failing declaration after a first one, an
+# invalid lexeme after a parse error, ...), to a smaller token bound
+EMIT2 = {"quick": "MC_DeltaBuffers_emit2_quick.cfg", "thorough": "MC_DeltaBuffers_emit2_thorough.cfg"}
 SEQ = {"quick": "DeltaSeq_quick.cfg", "thorough": "DeltaSeq_thorough.cfg"}
-HOLDS = {"quick": [("MC_DeltaBuffers_k4_quick.cfg", 8), ("MC_DeltaBuffers_k4_lean.cfg", 4)],
-         "thorough": [("MC_DeltaBuffers_k4_thorough.cfg", 8), ("MC_DeltaBuffers_k4_lean.cfg", 4)]}
+HOLDS = {"quick": [("MC_DeltaBuffers_k4_quick.cfg", 8), ("MC_DeltaBuffers_k4_lean.cfg", 4), ("MC_DeltaBuffers_k4_aborts2.cfg", 4)],
+         "thorough": [("MC_DeltaBuffers_k4_thorough.cfg", 8), ("MC_DeltaBuffers_k4_lean.cfg", 4), ("MC_DeltaBuffers_k4_aborts2.cfg", 4)]}
 DEFECTS = [("MC_DeltaBuffers_defect.cfg", "node capacity 5 + 2 * tokens"),
            ("MC_DeltaBuffers_defect_k3.cfg", "node capacity 5 + 3 * tokens"),
            ("MC_DeltaBuffers_defect_unreachable.cfg", "consume(Comma) / consume(Colon) without expectation text")]
 # family -> number of random inputs
 RANDOM = {
-    "quick": {"bytes": 3000, "soup": 1500, "badlex": 1000, "prog": 2400, "deep": 216, "mut": 3000, "corpus": 0},
-    "thorough": {"bytes": 30000, "soup": 10000, "badlex": 6000, "prog": 12000, "deep": 720, "mut": 40000, "corpus": 0},
+    "quick": {"bytes": 3000, "soup": 1500, "badlex": 1000, "prog": 2400, "deep": 216, "mut": 3000, "corpus": 0, "prog2": 1200},
+    "thorough": {"bytes": 30000, "soup": 10000, "badlex": 6000, "prog": 12000, "deep": 720, "mut": 40000, "corpus": 0, "prog2": 6000},
 }
 EVMAX = 300           # runs with more hook events are recorded with the buffer-protocol events only
 TRACE_SAMPLE = {"quick": 1500, "thorough": 20000}   # emitted (TLC) cases whose runs are trace-validated as well
+EDGE_CFG = {"quick": "MC_DeltaBuffersEdge.cfg", "thorough": "MC_DeltaBuffersEdge_thorough.cfg"}    # boundary cells (dimension audit)
+AGAIN = {"quick": 2000, "thorough": 12000}           # inputs run a second time, in another order, in the same worker processes
 
 RULE = ("Inputs: (a) every derivation of the annotated grammar of DeltaBuffers.tla with <= 11 (12) tokens incl. one junk "
         "token / truncation / invalid lexeme, emitted by TLC with the rule's verdict; (b) every token sequence of length "
@@ -50,8 +55,14 @@ RULE = ("Inputs: (a) every derivation of the annotated grammar of DeltaBuffers.t
         "-> parse -> errors -> tree XML -> build_header -> header XML in an isolated worker (8 MiB stack, 10 s timeout); "
         "panics are caught and recorded, a dead or silent child is recorded as crash / timeout for exactly that input. "
         "Verdicts are compared with the rule; recorded hook events of every random run and of a sample of the emitted "
-        "ones are validated by TLC against the buffer protocol. Non-trivial = distinct inputs that reach the parser "
-        "(no lexical error) or contain an invalid lexeme among valid ones.")
+        "ones are validated by TLC against the buffer protocol. (d) boundary cells emitted by TLC with the rule's "
+        "expectation (MC_DeltaBuffersEdge.tla): token counts cap-3..cap+2 x 9 source lengths around 2*65536 x {declarations, "
+        "`;`, literals} x invalid lexemes {none, first, last, 101} x raw bytes in a comment; 2^8 / 2^16 payloads; 1..250 "
+        "lexical / parse errors, stray modifiers; every lexeme cut by the end of input; NUL / control / invalid and valid "
+        "multi-byte bytes in comments, strings and between tokens at the first / middle / last byte; address and access "
+        "depth 1..256; 0..5000 declarations; names of 1..200000 bytes; 2^31 + 1 bytes (E102). (e) a sample of all inputs "
+        "is run a second time in another order in the same worker processes (state left behind by the previous input). "
+        "Non-trivial = distinct inputs that reach the parser (no lexical error) or contain an invalid lexeme among valid ones.")
 
 ASSUMPTIONS = [
     "level exploration: 'the process panicked / died / hung' is observed by the harness, not derived by TLC; the "
@@ -121,7 +132,9 @@ fn main() {
 LEXEME = {"str": '"s"', "chr": "'a'", "bad": "`", "id": "x", "bi": "f!", "ty": "i32", "lit": "1", "suf": "1u8"}
 CONTEXT = {"top": ("", ""), "body": ("fn f ( ) { ", " }"), "stmt": ("fn f ( ) { x = ", " ; }"), "type": ("const c : ", " = 1 ;"),
            "param": ("fn f ( ", " ) ;"), "member": ("struct S { ", " }"), "cond": ("fn f ( ) { if ", " { } }"),
-           "pubbody": ("pub fn f ( ) { ", " } fn g ( ) ;")}
+           "pubbody": ("pub fn f ( ) { ", " } fn g ( ) ;"), "aftererr": ("fn ( ; fn g ( ) { ", " }"),
+           "afterpub": ("pub fn f ( ) { } ", ""), "eofexpr": ("fn f ( ) { x = ", ""),
+           "pubconst": ("fn g ( ) { } pub const c : i32 = ", " ; fn h ( ) ;")}
 
 
 def toks_source(desc):
@@ -181,7 +194,14 @@ def miri_observer(rep, descs, parallel=8):
     return {"available": True, "inputs": inputs, "caught_panics": panics, "undefined_behaviour_reports": len(ub)}
 
 
+def cell_key(cell):
+    return " ".join("%s=%s" % (k, cell[k]) for k in ("fam", "what", "site", "pos", "unit", "n", "len", "bad", "badat", "raw", "lenk", "lenr")
+                    if cell.get(k) not in (None, "", 0))
+
+
 def case_key(desc):
+    if desc.get("g") == "cell":
+        return "cell: " + cell_key(desc["cell"])
     if desc.get("g") == "toks":
         return "%s: %s" % (desc.get("ctx", "top"), " ".join(desc["toks"]))
     return "%s/%s/%s" % (desc.get("g"), desc.get("seed"), desc.get("i"))
@@ -230,11 +250,43 @@ def verdict_problems(desc, obs):
     return out
 
 
+def cell_problems(c, obs):
+    """Compare the observation of a boundary cell with the expectation TLC computed for it (R on the cell)."""
+    o = obs.get("o")
+    if o not in ("accepted", "rejected"):
+        return []         # panics / crashes / timeouts are reported by their failure signature
+    codes = obs.get("codes") or []
+    exp = c["expect"]
+    if exp == "accepted" and o != "accepted":
+        return [("delta-rejected-wellformed", "a well-formed module is rejected with %s" % codes[:5])]
+    if exp == "accepted-or-E103" and not (o == "accepted" or codes == [103]):
+        return [("delta-rejected-wellformed", "a well-formed module is rejected with %s" % codes[:5])]
+    if exp == "rejected" and o != "rejected":
+        return [("delta-accepted-invalid-lexeme", "an input containing an invalid lexeme is accepted")]
+    if exp == "E102" and codes != [102]:
+        return [("delta-limit-not-reported", "a source of more than 2^31 bytes ends %s with %s instead of E102" % (o, codes[:5]))]
+    return []
+
+
+INT_MAX = 2 ** 31 - 1
+
+
+def digest(obs):
+    """What a run of an input must reproduce whatever ran before it in the same process."""
+    return [obs.get(x) for x in ("o", "codes", "ntok", "nnode", "ndecl", "hnode", "hdecl", "xml", "panic", "how")]
+
+
 def trace_of(desc, obs):
     """input / hook events / outcome of one run; a crash or panic leaves no outcome line."""
-    run = [{"ev": "input", "len": obs.get("len", -1), "wf": bool(obs.get("wf", desc.get("wf", False))),
+    n = obs.get("len", -1)
+    # TLC integers are 32-bit: lengths travel clipped, with their KiB quotient and remainder
+    run = [{"ev": "input", "len": min(n, INT_MAX), "lenk": max(n, 0) // 1024, "lenr": max(n, 0) % 1024,
+            "wf": bool(obs.get("wf", desc.get("wf", False))),
             "badlex": bool(obs.get("badlex", desc.get("badlex", False))), "light": "evlight" in obs, "case": case_key(desc)}]
-    run += obs.get("ev") or []
+    for e in obs.get("ev") or []:
+        if e.get("ev") == "tokcap" and e.get("len", 0) > INT_MAX:
+            e = dict(e, len=INT_MAX)
+        run.append(e)
     if obs.get("o") in ("accepted", "rejected"):
         run.append({"ev": "outcome", "ok": obs["o"] == "accepted", "codes": obs.get("codes") or []})
     return run
@@ -276,6 +328,15 @@ def run(rep, tier, seed, selftest):
         rep.note_drift("emission model violates %s" % r.violated)
     tlc_states += r.distinct
     derivs = r.cases
+    if not pinned:
+        r2 = common.tlc("MC_DeltaBuffers", EMIT2[tier], workers=4, timeout=3000, heap="8g", tag="C15-emit2", keep_output=False)
+        two = [c for c in r2.cases if c["errs"] >= 2 or c["bad"] >= 2]
+        log("[tlc] MC_DeltaBuffers/%s: %d states, %d derivations with two faults emitted, %.1fs, %s" %
+            (EMIT2[tier], r2.distinct, len(two), r2.wall, "protocol invariants hold" if r2.ok else "INVARIANT %s VIOLATED" % r2.violated))
+        if not r2.ok:
+            rep.note_drift("emission model (two faults) violates %s" % r2.violated)
+        tlc_states += r2.distinct
+        derivs = derivs + two
     rs = common.tlc("DeltaSeq", SEQ[tier], workers=4, timeout=3000, heap="8g", tag="C15-seq", keep_output=False)
     ctxs = next((p for t, p in rs.notes if t == "CTX"), None)
     if not ctxs or not rs.cases:
@@ -324,12 +385,15 @@ def run(rep, tier, seed, selftest):
             nontrivial.add(case_key(desc))
 
     failure_counts = {}
+    first_digest = {}
     CHUNK = 150000
     for base in range(0, n_emitted, CHUNK):
         part = [emitted_at(k) for k in range(base, min(base + CHUNK, n_emitted))]
         obs_part = delta_util.run_cases("C15", "emitted", part, events=True, evfilter=["toklen", "nodecap", "nodelen", "nodefull"])
         for j, (desc, o) in enumerate(zip(part, obs_part)):
             k = base + j
+            if k in sample:
+                first_digest[k] = digest(o)[:3]
             classify(desc, o)
             sig = signature(o)
             if sig:
@@ -381,6 +445,72 @@ def run(rep, tier, seed, selftest):
         fam[o.get("o")] = fam.get(o.get("o"), 0) + 1
     log("[random] %d inputs: %s" % (len(rdesc), json.dumps(by_family)))
     log("[time] %.0fs" % (time.time() - rep.t0))
+    # ---- 3b. boundary cells: Gen + R in MC_DeltaBuffersEdge.tla, rendered by harness/src/delta/edge.rs ----------
+    rc = common.tlc("MC_DeltaBuffersEdge", EDGE_CFG[tier], workers=2, timeout=900, heap="2g", tag="C15-edge")
+    if not rc.ok or not rc.cases:
+        raise common.ToolError("MC_DeltaBuffersEdge: %s" % (rc.violated or "no cells emitted"))
+    tlc_states += rc.distinct
+    cells = rc.cases
+    cdesc = [{"g": "cell", "cell": c["cell"], "wf": c["wf"], "badlex": c["bad"]} for c in cells]
+    # (the inputs of tens of megabytes of the thorough tier run two at a time: each needs up to 1 GiB)
+    heavy = [k for k, c in enumerate(cells) if c["cell"]["len"] > (1 << 22) or c["cell"]["what"] == "nodes24"]
+    light = [k for k in range(len(cells)) if k not in set(heavy)]
+    cobs = [None] * len(cells)
+    for k, o in zip(light, delta_util.run_cases("C15", "cells", [cdesc[k] for k in light], events=True, timeout_s=60)):
+        cobs[k] = o
+    if heavy:
+        old_threads = os.environ.get("PVH_THREADS")
+        os.environ["PVH_THREADS"] = "2"
+        try:
+            for k, o in zip(heavy, delta_util.run_cases("C15", "heavycells", [cdesc[k] for k in heavy], events=True, timeout_s=300)):
+                cobs[k] = o
+        finally:
+            if old_threads is None:
+                del os.environ["PVH_THREADS"]
+            else:
+                os.environ["PVH_THREADS"] = old_threads
+    cell_stats = {}
+    cell_agree = 0
+    for c, desc, o in zip(cells, cdesc, cobs):
+        classify(desc, o)
+        sig = signature(o)
+        if sig:
+            failure_counts[sig] = failure_counts.get(sig, 0) + 1
+        for kind, msg in cell_problems(c, o):
+            problems.append((kind, desc, o, "%s (the rule expects: %s)" % (msg, c["expect"])))
+        st = cell_stats.setdefault(c["cell"]["fam"], {})
+        k = "%s->%s" % (c["expect"], o.get("o") if (o.get("codes") or []) != [103] else "E103")
+        st[k] = st.get(k, 0) + 1
+        if c["cell"]["fam"] == "tok" and o.get("o") in ("accepted", "rejected"):
+            full = any(e.get("ev") == "tokfull" for e in o.get("ev") or [])
+            if full != c["afull"]:
+                rep.note_drift("%s: the model predicts that the token buffer %s, observed %s" %
+                               (case_key(desc), "overflows" if c["afull"] else "suffices", "tokfull" if full else "no tokfull"))
+            else:
+                cell_agree += 1
+        if "cell" not in selftest_cases and c["expect"] == "accepted" and o.get("o") == "accepted":
+            selftest_cases["cell"] = (c, o)
+    log("[cells] %d boundary cells emitted by TLC (%.1fs) and run on the real front end: %s; token-buffer model agreement %d" %
+        (len(cells), rc.wall, json.dumps(cell_stats), cell_agree))
+    # ---- 3c. the same inputs once more, in another order, in the same worker processes -----------------------
+    pool = [(d, o) for d, o in zip(rdesc, obs_r) if 0 <= (o.get("len") or 0) < 20000 and o.get("o") in ("accepted", "rejected")]
+    pool += [(d, o) for d, o in zip(cdesc, cobs) if 0 <= (o.get("len") or 0) < 300000 and o.get("o") in ("accepted", "rejected")]
+    rnd.shuffle(pool)
+    pool = pool[:AGAIN[tier]]
+    adesc = [d for d, _ in pool]
+    aobs = delta_util.run_cases("C15", "again", adesc, events=True, timeout_s=60) if adesc else []
+    history_dependent = 0
+    for (d, o1), o2 in zip(pool, aobs):
+        classify(dict(d, wf=o2.get("wf", d.get("wf")), badlex=o2.get("badlex", d.get("badlex"))), o2)
+        sig = signature(o2)
+        if sig:
+            failure_counts[sig] = failure_counts.get(sig, 0) + 1
+        if digest(o1) != digest(o2):
+            history_dependent += 1
+            rep.note_drift("%s: the observation depends on what ran before in the same process: %s / %s" %
+                           (case_key(d), json.dumps(digest(o1))[:200], json.dumps(digest(o2))[:200]))
+    log("[again] %d inputs run a second time in another order: %d observations differ" % (len(adesc), history_dependent))
+    log("[time] %.0fs" % (time.time() - rep.t0))
     # ---- 4. report failures, one witness (the smallest input) per failure signature ------------------
     for (kind, sig), items in sorted(failures.items()):
         items.sort(key=lambda x: x[0])
@@ -402,11 +532,17 @@ def run(rep, tier, seed, selftest):
     # ---- 5. impl -> spec: the buffer protocol of every recorded run, validated by TLC ------------------
     sample_idx = sorted(sample)
     if sample_idx:
+        rnd.shuffle(sample_idx)       # another order than in the first run (the recordings do not depend on it)
         sdesc = [emitted_at(k) for k in sample_idx]
         sobs = delta_util.run_cases("C15", "sample", sdesc, events=True)
+        for k, d, o in zip(sample_idx, sdesc, sobs):
+            if k in first_digest and first_digest[k] != digest(o)[:3]:
+                rep.note_drift("%s: the observation depends on what ran before in the same process: %s / %s" %
+                               (case_key(d), first_digest[k], digest(o)[:3]))
     else:
         sdesc, sobs = [], []
-    runs = [trace_of(d, o) for d, o in zip(sdesc, sobs)] + [trace_of(d, o) for d, o in zip(rdesc, obs_r)]
+    runs = ([trace_of(d, o) for d, o in zip(sdesc, sobs)] + [trace_of(d, o) for d, o in zip(rdesc, obs_r)]
+            + [trace_of(d, o) for d, o in zip(cdesc, cobs)] + [trace_of(d, o) for d, o in zip(adesc, aobs)])
     # A run that panicked or died has no outcome line: its recording is truncated, which is a rejection by
     # definition (and it has been reported above by its failure signature).  TLC is asked to confirm that on a
     # few of them; all complete recordings are validated.
@@ -458,6 +594,10 @@ def run(rep, tier, seed, selftest):
         flipped = dict(bad_case[1], o="accepted", codes=[])
         selftests["accepted_invalid_lexeme_detected"] = bool(verdict_problems(bad_case[0], flipped))
         selftests["panic_is_a_failure"] = signature({"o": "panic", "panic": "x"}) is not None
+        cc, co = selftest_cases["cell"]
+        selftests["cell_rejected_wellformed_detected"] = bool(cell_problems(cc, dict(co, o="rejected", codes=[300])))
+        selftests["cell_accepted_invalid_lexeme_detected"] = bool(cell_problems(dict(cc, expect="rejected"), co))
+        selftests["cell_missing_E102_detected"] = bool(cell_problems(dict(cc, expect="E102"), dict(co, o="rejected", codes=[110])))
         for cfg, _ in DEFECTS:
             selftests["defect_exhibited_" + cfg.replace("MC_DeltaBuffers_", "").replace(".cfg", "")] = model[cfg].startswith("violated")
         src = strict_files[0] if strict_files else None
@@ -498,6 +638,11 @@ def run(rep, tier, seed, selftest):
                 o["pushes"] = o["n"]
                 return True
 
+            def long_source_accepted(o):
+                o["lenk"] = 2097152
+                o["lenr"] = 1
+                return True
+
             def drop_outcome(lines):
                 for k, ln in enumerate(lines):
                     if '"ev":"outcome"' in ln:
@@ -511,6 +656,7 @@ def run(rep, tier, seed, selftest):
                 ("flipped_outcome_rejected", edit("outcome", flip_ok)),
                 ("missing_outcome_rejected", drop_outcome),
                 ("dropped_toklen_rejected", drop("toklen")),
+                ("source_over_2GiB_without_E102_rejected", edit("input", long_source_accepted)),
             ])
             res = common.tlc_traces("Trace_DeltaBuffers", "Trace_DeltaBuffers_rule.cfg", [p for _, p in muts])
             by = {x["file"]: x for x in res}
@@ -521,7 +667,7 @@ def run(rep, tier, seed, selftest):
             if not ok:
                 raise common.ToolError("self-test %s failed" % name)
     # ---- 7. evidence ------------------------------------------------------------------------------
-    evaluations = n_emitted + len(rdesc)
+    evaluations = n_emitted + len(rdesc) + len(cdesc) + len(adesc)
     samples = list(emitted_samples)
     for k in sorted(rnd.sample(range(len(rdesc)), 3)):
         samples.append({"input": case_key(rdesc[k]), "head": obs_r[k].get("head", "")[:80], "len": obs_r[k].get("len"),
@@ -542,6 +688,9 @@ def run(rep, tier, seed, selftest):
         "emitted_sequences_x_contexts": n_seq,
         "model_agreement_on_derivations": "%d/%d" % (agree, len(derivs)),
         "random_inputs": counts,
+        "boundary_cells": {"emitted": len(cells), "by_family_expectation_outcome": cell_stats,
+                           "token_buffer_model_agreement": cell_agree},
+        "second_pass_in_another_order": {"inputs": len(adesc) + len(first_digest), "observations_that_differ": history_dependent},
         "outcomes_by_family": by_family,
         "failure_signatures": {"%s: %s" % k: v for k, v in failure_counts.items()},
         "model_checking": model,
@@ -549,10 +698,22 @@ def run(rep, tier, seed, selftest):
         "miri_observer": miri,
         "exhaustive": False,
     }
+    # the recogniser of the documented grammar (spec/SyntaxRules.tla, docs/notes-syntax.md): this check receives the kinds of
+    # discrepancy that belong to its property (syntax_part.PROPERTY_KINDS); one computation is shared by C02, C13, C15, C16
+    from . import syntax_part
+    syn = syntax_part.run_part(rep, tier, seed, selftest)
+    coverage["syntax_part"] = syn
+    coverage["states"] = coverage.get("states", 0) + syn["states"]
+    coverage["transitions"] = coverage.get("transitions", 0) + syn["transitions"]
+    coverage["traces_validated_against_impl"] = coverage.get("traces_validated_against_impl", 0) + syn["cases_replayed"] + syn["traces_accepted"]
+    coverage["evaluations"] = coverage.get("evaluations", 0) + syn["evaluations"]
     return rep.finish("exploration", coverage, ASSUMPTIONS)
 
 
 def replay(path):
+    if json.load(open(path)).get("detail", {}).get("part") == "syntax":
+        from . import syntax_part
+        return syntax_part.replay(path)
     d = json.load(open(path))
     print("kind:", d["kind"])
     print("key: ", d["key"])
@@ -562,9 +723,10 @@ def replay(path):
         print(json.dumps(d, indent=1)[:4000])
         return 0
     common.build_harness()
-    case = {k: v for k, v in case.items() if k in ("g", "seed", "i", "toks", "ctx", "src", "hex")}
+    case = {k: v for k, v in case.items() if k in ("g", "seed", "i", "toks", "ctx", "src", "hex", "cell", "wf", "badlex")}
     dump = os.path.join(common.WORK, "C15-replay-input.pn")
-    case["dump"] = dump
+    if (case.get("cell") or {}).get("fam") != "huge":      # (2 GiB of zeros are not written to disk)
+        case["dump"] = dump
     p = common.pvh(["show", json.dumps(case)], exe_name="pvh_delta", check=False, env={"PENNE_REPO": common.REPO})
     print(p.stdout[-6000:])
     if p.returncode != 0:
